@@ -185,15 +185,26 @@ def validate_trace(trace_path, wd, timeout=1800):
     with open(trace_path) as f:
         lines = f.readlines()
     starts = [i for i, ln in enumerate(lines) if '"ev":"universe"' in ln]
-    k = min(PAR, len(lines) // 15000, len(starts))
+    # cost of a scenario for TLC: its records, weighted by the size of its universe (every step of a history
+    # of several hundred blocks costs as much as hundreds of steps of a small one)
+    bounds = starts + [len(lines)]
+    costs = []
+    for a, b in zip(bounds, bounds[1:]):
+        weight = 1 + len(lines[a]) / 20000.0
+        costs.append((b - a) * weight)
+    total = sum(costs)
+    k = min(PAR, int(total // 15000), len(starts))
     if k <= 1:
         return _validate_one(trace_path, wd, timeout)
     from concurrent.futures import ThreadPoolExecutor
-    target = len(lines) / k
+    target = total / k
     cuts = [0]
-    for st in starts:
-        if st - cuts[-1] >= target and len(cuts) < k:
+    acc = 0.0
+    for st, c in zip(starts, costs):
+        if acc >= target and len(cuts) < k and st > cuts[-1]:
             cuts.append(st)
+            acc = 0.0
+        acc += c
     cuts.append(len(lines))
     pieces = []
     for i in range(len(cuts) - 1):
